@@ -135,7 +135,9 @@ def print_layer(ctx, lk, conn, entries, options):
     print_clause_layer(ctx, lk, conn, entries, options)
     print_filter_clause_layer(ctx, lk, conn, entries, options)
     for frm in [None, "year >= 2020", "type = 'transaction'", "type != 'transaction'", "flag = '!'", "year = 1800",
-                "has_account('Assets:Bank')", "narration ~ 'rent' OR payee ~ 'Cafe'"]:
+                "has_account('Assets:Bank')", "narration ~ 'rent' OR payee ~ 'Cafe'",
+                # conditions that are not of boolean type hold where their value is truthy, as in WHERE
+                "tags", "links", "payee", "meta['ref']", "day - 15", "narration", "NOT tags"]:
         text = 'PRINT' + (' FROM ' + frm if frm else '')
         try:
             stmt = parser.parse(text)
@@ -211,7 +213,59 @@ def shallow(e):
     return head + (e.flag, e.payee, e.narration, e.tags, e.links, posts)
 
 
+RENAMED = """option "name_assets" "Aktiva"
+option "name_liabilities" "Passiva"
+option "name_equity" "Eigenkapital"
+option "name_income" "Ertrag"
+option "name_expenses" "Aufwand"
+2020-01-01 open Aktiva:Bank
+2020-01-01 open Aktiva:Bar
+2020-01-01 open Passiva:Karte
+2020-01-01 open Eigenkapital:Start
+2020-01-01 open Ertrag:Lohn
+2020-01-01 open Aufwand:Essen
+2020-01-01 open Aufwand:Bahn
+2020-01-02 * "start"
+  Aktiva:Bank  100.00 EUR
+  Eigenkapital:Start  -100.00 EUR
+2020-01-03 * "lohn"
+  Aktiva:Bank  50.00 EUR
+  Ertrag:Lohn  -50.00 EUR
+2020-01-04 * "essen"
+  Aufwand:Essen  7.50 EUR
+  Passiva:Karte  -7.50 EUR
+2020-01-05 * "bahn"
+  Aufwand:Bahn  3.00 EUR
+  Aktiva:Bar  -3.00 EUR
+"""
+
+
+def renamed_roots_layer(ctx):
+    """BALANCES lists the accounts by account type, then name, where the types are the ledger's own root names"""
+    entries, errors, options = ledgers.load(RENAMED)
+    conn = ledgers.connect(entries, errors, options)
+    order = ['Aktiva', 'Passiva', 'Eigenkapital', 'Ertrag', 'Aufwand']
+    for stmt, select in (('BALANCES', 'SELECT account, sum(position) GROUP BY account'),
+                         ('BALANCES AT cost', 'SELECT account, sum(cost(position)) GROUP BY account'),
+                         ("BALANCES FROM year >= 2000 WHERE number > 0", "SELECT account, sum(position) FROM year >= 2000 WHERE number > 0 GROUP BY account"),
+                         ('BALANCES FROM CLOSE ON 2020-01-05 CLEAR', 'SELECT account, sum(position) FROM CLOSE ON 2020-01-05 CLEAR GROUP BY account')):
+        try:
+            got = conn.execute(stmt).fetchall()
+        except Exception as exc:  # noqa: BLE001
+            ctx.record_violation('balances-raises-%s' % type(exc).__name__, '%s on a ledger with renamed root accounts: %r' % (stmt, exc))
+            continue
+        rows = {r[0]: str(r[1]) for r in conn.execute(select).fetchall()}
+        want = sorted(rows, key=lambda a: (order.index(a.split(':')[0]), a))
+        ctx.evaluations += 1
+        ctx.count('renamed-roots')
+        ctx.nontrivial_hashes.add(hash(('renamed', stmt)))
+        if [r[0] for r in got] != want or {r[0]: str(r[1]) for r in got} != rows:
+            ctx.record_violation('balances-order-renamed-roots', '%s lists %r, by account type and name that is %r' % (
+                stmt, [(r[0], str(r[1])) for r in got], [(a, rows[a]) for a in want]), payload={'statement': stmt, 'ledger': RENAMED})
+
+
 def run(ctx):
+    renamed_roots_layer(ctx)
     rng = ctx.rng
     n = 10 if ctx.thorough() else 2
     for lk in range(n):
